@@ -63,5 +63,9 @@ P02_AfterHistory ==
         IN \A k \in 1..(Len(w.rx) - 1) :
               TotalIntegral(SubSeqR(w.x, (k - 1) * n + 1, k * n + 1), SubSeqR(w.y, (k - 1) * n + 1, k * n + 1), tr)
                  = RMul(w.ry[k], RSub(w.rx[k + 1], w.rx[k]))
+\* keeps long (simulated) histories inside TLC's 32-bit rationals and the series short
+SmallSeq(q) == \A i \in 1..Len(q) : Abs(q[i][1]) < 20000 /\ q[i][2] < 20000
+SafeMagnitude == /\ Len(w.x) <= 30 /\ Len(w.rx) <= 30
+                 /\ SmallSeq(w.x) /\ SmallSeq(w.y) /\ SmallSeq(w.rx) /\ SmallSeq(w.ry) /\ SmallSeq(w.ox) /\ SmallSeq(w.oy)
 Emit == hist # <<>> => PrintT(ToJson([start |-> Starts[sid], hist |-> hist, stage |-> stage]))
 =============================================================================
